@@ -891,6 +891,13 @@ func (c *evalCtx) call(n *Node) SV {
 		}
 		args = append(args, v.T)
 	}
+	if ge, ok := c.env.(interface {
+		LoopGhost(name string) (LGhost, bool)
+	}); ok {
+		if lg, ok := ge.LoopGhost(n.Name); ok {
+			return SV{T: app(lg.Sym, args...), Sort: lg.Sort}
+		}
+	}
 	if sig, ok := c.xsigs[n.Name]; ok {
 		return SV{T: app(c.xsyms[n.Name], args...), Sort: sig.Ret, Ty: sig.RetT}
 	}
